@@ -162,6 +162,23 @@ static void helpers(Ctx &c, int reps) {
         tGswFFTClear(AF, c.tg); tGswFFTAddH(AF, c.tg); tGswFromFFTConvert(B, AF, c.tg); tGswClear(C, c.tg); tGswAddH(C, c.tg);
         out.evaluations++;
         for (int r = 0; r < c.tg->kpl; r++) for (int i = 0; i <= k; i++) for (int j = 0; j < N; j++) { int32_t d = B->all_sample[r].a[i].coefsT[j] - C->all_sample[r].a[i].coefsT[j]; if (d > 1 || d < -1) { out.viol("extprod:tGswFFTAddH", J().s("config", c.cfg).i("row", r).i("coef", j).i("diff", d)); r = c.tg->kpl; i = k + 1; break; } }
+        // the Add* helpers accumulate: on a target that is not zero (a noiseless encryption with random masks) the result is the
+        // old content plus mu*H, word for word (coefficient domain) / within the transform round trip (FFT domain)
+        { fill_message(m, 4); build_noiseless(c, A, m);
+          auto copy_tgsw = [&](TGswSample *d, const TGswSample *s0) { for (int r = 0; r < c.tg->kpl; r++) tLweCopy(&d->all_sample[r], &s0->all_sample[r], c.tl); };
+          auto plus_mu_h = [&](TGswSample *d, int32_t mu) { for (int i = 0; i <= k; i++) for (int j = 0; j < l; j++) d->all_sample[i * l + j].a[i].coefsT[0] += mu * c.tg->h[j]; };
+          VH_OP("tGswAddMuIntH(non-zero target):%s", c.cfg.c_str());
+          copy_tgsw(B, A); copy_tgsw(C, A); tGswAddMuIntH(B, mi, c.tg); plus_mu_h(C, mi); out.evaluations++;
+          if (!same_tgsw(B, C)) out.viol("extprod:tGswAddMuIntH-does-not-accumulate", J().s("config", c.cfg).i("m", mi));
+          VH_OP("tGswAddH(non-zero target):%s", c.cfg.c_str());
+          copy_tgsw(B, A); copy_tgsw(C, A); tGswAddH(B, c.tg); plus_mu_h(C, 1); out.evaluations++;
+          if (!same_tgsw(B, C)) out.viol("extprod:tGswAddH-does-not-accumulate", J().s("config", c.cfg));
+          VH_OP("tGswFFTAddH(non-zero target):%s", c.cfg.c_str());
+          tGswToFFTConvert(AF, A, c.tg); tGswFFTAddH(AF, c.tg); tGswFromFFTConvert(B, AF, c.tg); out.evaluations++;
+          for (int r = 0; r < c.tg->kpl; r++) for (int i = 0; i <= k; i++) for (int j = 0; j < N; j++) { int32_t d = B->all_sample[r].a[i].coefsT[j] - C->all_sample[r].a[i].coefsT[j];
+              if (d > 2 || d < -2) { out.viol("extprod:tGswFFTAddH-does-not-accumulate", J().s("config", c.cfg).i("row", r).i("poly", i).i("coef", j).i("diff", d)); r = c.tg->kpl; i = k + 1; break; } }
+          // and the step of the original blind rotation built from them: (X^a - 1) * BK + H encrypts X^(a s) in both domains
+          out.cell(c.cfg + ":helpers:accumulate-on-non-zero-target"); }
         // (X^a - 1) * TGSW sample: row-wise exact
         fill_message(m, 4); build_noiseless(c, A, m);
         int a = rep % 4 == 0 ? 0 : rep % 4 == 1 ? 2 * N - 1 : (int) rng.below(2 * N);
